@@ -220,10 +220,14 @@ class Flat:
         c = s.const(ty, v)
         if c in ('0', '0u', '0ull'): return
         out.append(s.store(ty, '%dull' % addr, c))
+    def stack_bytes(s):
+        # per-thread stack area: the sum of all frames bounds every non-recursive call chain; capped (an overflow is an assertion failure, never silent)
+        return min(s.frame_off, s.stack_cap) + 1024
+    stack_cap = 32768
     def paged_memory(s):
         a16 = lambda x: (x + 15) & ~15
         tls_base = a16(s.gnext); tls_stride = a16(s.tlsnext + 16)
-        stack_base = tls_base + s.nt * tls_stride; stack_stride = a16(s.frame_off + 16)
+        stack_base = tls_base + s.nt * tls_stride; stack_stride = a16(s.stack_bytes() + 16)
         end = stack_base + s.nt * stack_stride + s.heap
         pw = s.pagewords; pb = pw * 8
         npages = (end - 0x10000 + pb - 1) // pb
@@ -250,7 +254,9 @@ class Flat:
                     s.in_ginit = True
                     try: s.ginit(g.ty, g.init, s.gaddr[n], inits)
                     finally: s.in_ginit = False
-        hdr = ['#define IR_GLOBALS_END %dull' % s.gnext, '#define IR_TLS_SIZE %dull' % s.tlsnext, '#define IR_FRAMES_SIZE %dull' % s.frame_off,
+        ext = sorted(n for n in s.fseen if not (s.m.funcs[n].defined and n not in s.stubs) and not n.startswith('llvm.'))
+        ren = ['#ifdef NATIVE_REPLAY  /* externals keep their names under cbmc; natively they must not collide with libc */'] + ['#define %s irn_%s' % (cid(n), cid(n)) for n in ext if not n.startswith('_dispatch') and not n.startswith('_os_')] + ['#endif']
+        hdr = ren + ['#define IR_GLOBALS_END %dull' % s.gnext, '#define IR_TLS_SIZE %dull' % s.tlsnext, '#define IR_FRAMES_SIZE %dull' % s.stack_bytes(),
                '#define IR_NT %d' % s.nt, '#define IR_HEAP_SIZE %dull' % s.heap] + s.paged_memory() + ['#include "ir2flat_prelude.h"']
         hdr += ['#define G_%s %dull' % (s.gname(n), a) for n, a in s.gaddr.items()]
         hdr += ['#define GSZ_%s %dull' % (s.gname(n), s.L.size(s.m.globs[n].ty)) for n in s.gaddr]
@@ -258,7 +264,10 @@ class Flat:
         hdr += ['#define FN_%s %dull' % (cid(n), a) for n, a in s.faddr.items()]
         hdr += s.aggdefs
         protos = [s.proto(s.m.funcs[n]) + ';' for n in sorted(s.fseen) if not n.startswith('llvm.')]
+        inits = ['ir_sp[%d] = IR_STACK_BASE + %dull * IR_STACK_STRIDE;' % (t, t) for t in range(s.nt)] + inits
         init = 'void ir_init_globals(void) {\n  ' + '\n  '.join(inits) + '\n}\n'
+        from ir2c import T as _T
+        hdr.append('#define IR_CALL_V_U64 %s   /* call a translated function of type void(void*) through its token (for callout stubs) */' % s.dispatcher(_T('void'), [PTR(INT(8))]))
         disp = s.dispatchers()
         if s.seq:
             lines = ['#ifdef IR_DUMP_FRAMES', 'void ir_dump_frames(void) { int printf(const char *, ...);']
@@ -267,7 +276,13 @@ class Flat:
                     lines.append('  for (int t = 0; t < IR_NT; t++) if (fr_%s[t].%s) printf("FRAME %s %%d %s %%llu\\n", t, (unsigned long long)fr_%s[t].%s);' % (fn, k, fn, k, fn, k))
             lines += ['}', '#endif']
             disp.append('\n'.join(lines))
-        return '\n'.join(hdr + protos + s.disp_protos + [init] + bodies + disp) + '\n'
+        undef = []
+        for n in ext:
+            if n in s.stubs: continue
+            f = s.m.funcs[n]; rk = s.res(f.ret).k
+            ret = '' if rk == 'void' else (' return (%s){};' % s.cty(f.ret) if rk in ('struct', 'arr') else ' return 0;')
+            undef.append('%s { IR_ASSERT(0, "call to external function %s which the harness does not model");%s }' % (s.proto(f), n, ret))
+        return '\n'.join(hdr + protos + s.disp_protos + [init] + bodies + disp + undef) + '\n'
     def proto(s, f):
         ps = ['%s %s' % (s.cty(t), s.ln(n)) for t, n in f.params]
         args = ', '.join(ps) if ps else ('void' if not f.va else '')
@@ -348,10 +363,17 @@ class Flat:
             if s.res(t).k == 'void': continue
             if not s.seq and any(n == pn for _, pn in f.params): continue
             decls.append('  %s %s;' % (s.cty(t), s.ln0(n)))
-        fbase = s.frame_off; s.frame_off += (s.cur_frame + 15) // 16 * 16
-        fpline = '  const u64 ir_fp = IR_STACK_BASE + (u64)ir_cur * IR_STACK_STRIDE + %dull;' % fbase
+        fsize = (s.cur_frame + 15) // 16 * 16
+        fbase = s.frame_off; s.frame_off += fsize
         if not s.seq:
+            # frames are allocated per activation from a per-thread stack pointer (recursion-safe); on straight-line paths cbmc folds the addresses to constants
+            if fsize:
+                fpline = '  const u64 ir_fp = ir_sp[ir_cur]; ir_sp[ir_cur] = ir_fp + %dull; IR_ASSERT(ir_sp[ir_cur] <= IR_STACK_BASE + ((u64)ir_cur + 1ull) * IR_STACK_STRIDE, "model stack overflow (recursion deeper than the harness provides for)");' % fsize
+                body = [b.replace('/*IR_EPILOGUE*/', 'ir_sp[ir_cur] = ir_fp; ') for b in body]
+            else:
+                fpline = ''; body = [b.replace('/*IR_EPILOGUE*/', '') for b in body]
             return '%s {\n%s\n%s\n}\n' % (s.proto(f), fpline, '\n'.join(decls + body))
+        fpline = '  const u64 ir_fp = IR_STACK_BASE + (u64)ir_cur * IR_STACK_STRIDE + %dull;' % fbase
         fn = cid(f.name)
         ps = ['%s a_%s' % (s.cty(t), s.ln0(n)) for t, n in f.params]
         args = ', '.join(ps) if ps else 'void'
@@ -420,7 +442,7 @@ class Flat:
             cs = ' '.join('case %s: %s' % (s.const(d['t'], cv), edge(bl, lab)) for cv, lab in d['cases'])
             return 'switch (%s) { %s default: %s }' % (V(d['t'], d['v']), cs, edge(bl, d['dflt']))
         if op == 'ret':
-            pre = '{ F.pc = 0; F.active = 0; ' if s.seq else ''; post = ' }' if s.seq else ''
+            pre = '{ F.pc = 0; F.active = 0; ' if s.seq else '{ /*IR_EPILOGUE*/'; post = ' }'
             return pre + ('return;' if d['v'] is None else 'return %s;' % V(d['t'], d['v'])) + post
         if op == 'unreachable': return 'IR_UNREACHABLE();'
         if op == 'atomicrmw':
